@@ -793,3 +793,13 @@ for _af, _nm in ((0, "fetch_then_add"), (1, "add_then_fetch")):
       functions=["add_fetch_to_state", "find_fetchers_for_element", "add_fetch_to_states", "notify_fetchers"],
       symbolic="new state value", assumes=["set-up steps succeed"],
       bounds="4 subscriptions (3 peers, one with two fetches) on one element, initial subscription table size 2 (%s)" % _nm, **_scn_fetch)
+
+_SHAPES = ['add_no_params', 'add_params_number', 'add_params_array', 'add_path_number', 'add_path_object', 'add_path_missing', 'add_access_number', 'add_fetchgroups_number_member', 'add_setgroups_string', 'add_fetchonly_number', 'add_timeout_string', 'change_path_number', 'change_no_value', 'remove_path_array', 'set_path_number', 'set_timeout_string', 'call_no_params', 'fetch_no_id', 'fetch_id_object', 'fetch_rule_number', 'fetch_no_params', 'unfetch_id_array', 'unfetch_foreign_fetch', 'get_rule_string', 'config_name_number', 'config_no_params', 'authenticate_user_number', 'authenticate_password_object', 'passwd_user_array', 'method_number', 'method_object', 'id_object', 'id_array', 'id_true', 'bare_number', 'bare_string', 'empty_batch', 'nested_batch', 'empty_object', 'response_numeric_id', 'response_object_id', 'response_no_id']
+_scn_shape = dict(_scn_guard, harness="harness/scn_shapes.c")
+for _i, _nm in enumerate(_SHAPES):
+    O(id="C06.shape_" + _nm, props=["C06", "C02", "C04"], entry="harness_shape", defines=["SHAPE=%d" % _i],
+      reach=(["closed"] if _i in {34, 35, 37, 39, 40, 41} else ["kept"]) + (["tolerated"] if _i in (6, 7) else ["refused"]) + ([] if _i in {6, 7, 32, 33, 34, 35, 36, 37, 38, 39, 40, 41, 31} else ["with_id"]),
+      functions=["parse_message", "parse_json_rpc", "parse_json_array", "handle_method", "add_element_to_peer", "change_state", "remove_element_from_peer", "set_or_call", "add_fetch_to_peer",
+                 "remove_fetch_from_peer", "get_elements", "config_peer", "handle_authentication", "handle_change_password", "handle_routing_response", "create_error_response*"],
+      symbolic="one number inside the hostile member", assumes=["set-up (O add 's', B fetch-all) succeeds"],
+      bounds="one message of shape '%s' by A; 3 peers, 1 element, 1 subscription" % _nm, **_scn_shape)
